@@ -66,6 +66,12 @@ _base_verify = verify
 
 def verify(S):       # noqa: F811
     _base_verify(S)
+    from contracts import c09 as _c09
+    ctx = _Ctx(S, "regions.Region.sky_within")
+    try:
+        ctx.explore(_c09.t_sky_within)
+    except _Und as u:
+        S.undecided.append("regions.Region.sky_within: %s" % u)
     ctx = _Ctx(S, "source_finder.SourceFinder.load_globals")
     try:
         ctx.explore(t_region_loading)
